@@ -981,6 +981,9 @@ func makeObject(props map[string]string, schema *openapi3.SchemaRef) (map[string
 	return result, nil
 }
 
+// maxSparseArrayGap is how many missing items a deepObject array may have before it is refused.
+const maxSparseArrayGap = 1024
+
 // example: map[0:map[key:true] 1:map[key:false]] -> [map[key:true] map[key:false]]
 func sliceMapToSlice(m map[string]any) ([]any, error) {
 	var result []any
@@ -998,6 +1001,10 @@ func sliceMapToSlice(m map[string]any) ([]any, error) {
 		if k > max {
 			max = k
 		}
+	}
+	if max >= len(m)+maxSparseArrayGap {
+		// a single huge index must not make the server allocate and walk an enormous array
+		return nil, fmt.Errorf("array index %d is too far beyond the %d items given", max, len(m))
 	}
 	for i := 0; i <= max; i++ {
 		val, ok := m[strconv.Itoa(i)]
